@@ -19,6 +19,10 @@ class _MetaArray(type):
 
     @_intrinsic
     def __getitem__(cls, slice):
+        assert not hasattr(
+            cls, "_elemtype_"
+        ), f"{cls} is already specialized and cannot be specialized again"
+
         assert (
             isinstance(slice, tuple) and len(slice) == 2
         ), "cohdl.Array[] requires two arguments [DATA_TYPE, SIZE]"
